@@ -346,6 +346,42 @@ def subprocess_guards(ck):
             ck.violation("grids:lmax=%d:process-died" % lmax, {"returncode": p.returncode, "stderr": p.stderr[-300:]})
         if lmax >= 1 and "BUILT" not in p.stdout:
             ck.violation("grids:lmax=%d:valid-rejected" % lmax, {"stdout": p.stdout[-200:]})
+    # angular cut-offs of grid and generator: (grid lmax, requested generator lmax).  A request above the grid's must be refused;
+    # an accepted generator must keep every shell of its auxiliary bases within the harmonics the grid tabulates (the C
+    # contraction routines index (nrad, nlm, nalpha) buffers with the basis' l) and produce finite features of the right count
+    gcode = ("import cvload, numpy as np\nfrom pyscf import gto\nfrom pyscf.dft import numint as pni\nimport models as M\n"
+             "from ciderpress.pyscf.gen_cider_grid import CiderGrids\nfrom ciderpress.pyscf.nldf_convolutions import PySCFNLDFInitializer\n"
+             "mol = M.make_mol('H2O')\ng = CiderGrids(mol, lmax=%d); g.atom_grid=(10,26); g.build()\n"
+             "nl = M.nldf_settings('%s', 'MGGA', 'one')\nkw = {} if %d < 0 else {'lmax': %d}\n"
+             "try:\n    gen = PySCFNLDFInitializer(nl, **kw).initialize_nldf_generator(mol, g.grids_indexer, 1)\n"
+             "except ValueError:\n    print('REJECTED'); raise SystemExit(0)\n"
+             "gen.interpolator.set_coords(g.coords)\n"
+             "lb = max(int(gen.ccl.atco_inp.bas[:, 1].max()), int(gen.ccl.atco_out.bas[:, 1].max()))\n"
+             "ao = pni.eval_ao(mol, g.coords, deriv=1); r = pni.eval_rho(mol, ao, 2 * M.core_dm(mol), xctype='MGGA', with_lapl=False)\n"
+             "rho = np.zeros((5, r.shape[1])); rho[:4] = r[:4]; rho[4] = r[-1]\n"
+             "f = gen.get_features(rho)\nprint('BASISL', lb, 'NF', f.shape[0], 'FIN', int(np.isfinite(f).all()), 'EXPECT', nl.nfeat)\n")
+    for glmax, req, ver in ((6, -1, "j"), (6, 4, "i"), (10, 8, "j"), (10, -1, "k"), (4, 6, "j"), (3, -1, "ij"), (8, 8, "i")):
+        p = subprocess.run([sys.executable, "-c", gcode % (glmax, ver, req, req)], capture_output=True, text=True, timeout=600,
+                           env=dict(os.environ, MALLOC_CHECK_="3", MALLOC_PERTURB_="165", OMP_NUM_THREADS="1"))
+        ck.count(key=("lmax-lattice", glmax, req, ver))
+        tag = "grid-lmax=%d:generator-lmax=%s:%s" % (glmax, "default" if req < 0 else req, ver)
+        if p.returncode != 0:
+            ck.violation("generator-lmax:%s:process-died" % tag, {"returncode": p.returncode, "stderr": p.stderr[-300:]})
+            continue
+        out = p.stdout.strip().splitlines()[-1] if p.stdout.strip() else ""
+        if req > glmax:
+            if "REJECTED" not in out:
+                ck.violation("generator-lmax:%s:request-above-grid-accepted" % tag, {"stdout": out})
+            continue
+        if "REJECTED" in out or not out.startswith("BASISL"):
+            ck.violation("generator-lmax:%s:valid-request-refused" % tag, {"stdout": out, "stderr": p.stderr[-200:]})
+            continue
+        tok = out.split()
+        lb, nf, fin, exp = int(tok[1]), int(tok[3]), int(tok[5]), int(tok[7])
+        want = glmax if req < 0 else req
+        if lb > want or nf != exp or not fin:
+            ck.violation("generator-lmax:%s:auxiliary-basis-exceeds-the-angular-cut-off" % tag,
+                         {"basis_lmax": lb, "cut_off": want, "nfeat": nf, "expected_nfeat": exp, "finite": bool(fin)})
 
 
 def main():
